@@ -74,6 +74,14 @@ theorem operand_widens (e a : Kind) :
       else some (a, against cfg e a, .same) := by
   cases e <;> cases a <;> decide
 
+/-- **C16 (subscript index, read and write-back)**: an index of kind `nat` is widened to the `int` parameter of
+    `__getitem__` *and* of the implicit `__setitem__` of an assignable place (`xs[n] = v`, `xs[n] += 1`, lending `qs[n]`): the
+    write path accepts exactly what the read path accepts, with the same (no-op) coercion; a `float` index is rejected. -/
+theorem index_place_widens (idx : Kind) :
+    indexWrite cfg idx = indexRead cfg idx ∧ indexPlace cfg idx = against cfg idx .int ∧
+    ((indexPlace cfg idx = .same ∨ (indexPlace cfg idx).isCoerced = true) ↔ (idx = .nat ∨ idx = .int)) := by
+  cases idx <;> decide
+
 /-- **C16 (value, nat → int)**: the inserted no-op preserves the value whenever it is representable
     in `int`, i.e. below 2^63 … -/
 theorem nat_to_int_value {F : Type} (ofInt : Int → F) (w : W) (h : valueOf .nat w < 2 ^ 63) :
@@ -114,6 +122,8 @@ example : against cfg .float .int = .mismatch := by decide
 example : against cfg .int .int = .same := by decide
 example : checkExpr cfg .call .nat .int = .mismatch := by decide
 example : checkExpr cfg .comptime .int .float = .mismatch := by decide
+example : indexPlace cfg .nat = .coerced "noop" := by decide
+example : indexPlace cfg .float = .mismatch := by decide
 example : Widening .nat .int := by decide
 example : ¬ Widening .int .nat := by decide
 example : valueOf .nat (BitVec.ofNat 64 5) < 2 ^ 63 := by decide
